@@ -8,6 +8,7 @@ the working tree is skipped (the tree has moved on), never counted as detected.
 """
 import ast
 import importlib
+import json
 import multiprocessing
 import os
 import shutil
@@ -27,11 +28,38 @@ def evaluate(prop, root, tier='quick'):
 
 def _load_variants():
     from . import variants
-    return variants.VARIANTS
+    vs = list(variants.VARIANTS)
+    # changes produced independently by sub-agents and confirmed to break the
+    # property while passing the test suite (see /verif/seeded/<id>/meta.json)
+    sd = os.path.join(core.VERIF_DIR, 'seeded')
+    if os.path.isdir(sd):
+        for name in sorted(os.listdir(sd)):
+            mp = os.path.join(sd, name, 'meta.json')
+            pp = os.path.join(sd, name, 'patch.diff')
+            if not (os.path.exists(mp) and os.path.exists(pp)):
+                continue
+            with open(mp, encoding='utf-8') as f:
+                meta = json.load(f)
+            det = meta.get('detected_by')
+            if not det:
+                continue      # recorded as not detectable by this family (see DESIGN.md)
+            for prop in (det if isinstance(det, list) else [det]):
+                vs.append(dict(id='seeded/%s@%s' % (name, prop), prop=prop, patch=pp, expect='*',
+                               note='independent seeded change'))
+    return vs
+
+
+def _apply_patch(tmp, patch):
+    import subprocess
+    p = subprocess.run(['patch', '-p1', '-s', '-f', '-d', tmp, '-i', patch],
+                       stdout=subprocess.PIPE, stderr=subprocess.STDOUT)
+    return p.returncode == 0, p.stdout.decode('utf-8', 'replace')[-300:]
 
 
 def _one(v):
     root = core.repo_root()
+    if 'patch' in v:
+        return _one_patch(v, root)
     src = os.path.join(root, v['file'])
     try:
         with open(src, encoding='utf-8') as f:
@@ -71,6 +99,28 @@ def _one(v):
         if ref:
             return (v['id'], 'missed', 'fired %s instead of %s' % (sorted({o.rule for o in ref}),
                                                                   v['expect']))
+        return (v['id'], 'missed', 'no refuted obligation')
+    finally:
+        shutil.rmtree(tmp, ignore_errors=True)
+
+
+def _one_patch(v, root):
+    tmp = tempfile.mkdtemp(prefix='pxv_variant_')
+    try:
+        shutil.copytree(os.path.join(root, 'pylatexenc'), os.path.join(tmp, 'pylatexenc'),
+                        ignore=shutil.ignore_patterns('__pycache__'))
+        ok, out = _apply_patch(tmp, v['patch'])
+        if not ok:
+            return (v['id'], 'skipped', 'patch does not apply to the current tree')
+        try:
+            ctx = evaluate(v['prop'], tmp)
+        except core.AnalysisError as e:
+            return (v['id'], 'missed', 'analysis error instead of a verdict: %s' % e)
+        known = {k['key'] for k in core.load_known_findings()
+                 if k.get('property') == v['prop'] and k.get('status') == 'known'}
+        ref = [o for o in ctx.obs if o.verdict == core.REFUTED and o.key() not in known]
+        if ref:
+            return (v['id'], 'detected', '%s: %s' % (ref[0].rule, ref[0].reason[:120]))
         return (v['id'], 'missed', 'no refuted obligation')
     finally:
         shutil.rmtree(tmp, ignore_errors=True)
